@@ -361,6 +361,41 @@ def main():
                     {"limit": str(slim)})
   except Exception as e:  # pylint: disable=broad-except
     rep.violation("directed-separable-raises", f"directed separable case raised {type(e).__name__}: {str(e)[:200]}", {})
+  # ---- directed: layer names that contain role words must not change the role that is looked up
+  try:
+    i_ = Input((6,), name="nm_in")
+    x_ = L.Dense(4, activation="relu", name="kernel_proj")(i_)
+    x_ = L.Dense(3, activation="relu", name="bias_mixer")(x_)
+    nref = Model(i_, x_)
+    tgt = forgiving_factor["bits"](8.0, 8.0, 2.0, stress=1.0, config={"default": ["parameters", "activations"]})
+    nlim = {"Dense": [["ternary"], ["quantized_bits(8,3,1)"], ["quantized_relu(3,1)"]]}
+    nhm = A.AutoQKHyperModel(nref, metrics=["acc"], target=tgt, limit={k: list(v) for k, v in nlim.items()}, tune_filters="none", tune_filters_exceptions="^$",
+                             quantization_config=CUSTOM_CFG)
+    cap3 = {}
+    orig_mq = A.model_quantize
+
+    def mq3(model, qd, ab, **kw):
+      cap3["q"] = {k: dict(v) if isinstance(v, dict) else v for k, v in qd.items()}
+      raise RuntimeError("captured")
+    A.model_quantize = mq3
+    err3 = None
+    try:
+      nhm.quantize_model(HP({}))
+    except RuntimeError:
+      pass
+    except Exception as e:  # pylint: disable=broad-except
+      err3 = e
+    finally:
+      A.model_quantize = orig_mq
+    rep.count(("directed-names", str(cap3.get("q"))))
+    want3 = {"kernel_quantizer": "ternary", "bias_quantizer": "quantized_bits(8,3,1)", "activation": "quantized_relu(3,1)"}
+    for ln_ in ("kernel_proj", "bias_mixer"):
+      got3 = (cap3.get("q") or {}).get(ln_)
+      if got3 != want3:
+        rep.violation(f"role-depends-on-layer-name-{ln_}", f"limit {nlim} (one allowed quantizer per role): layer {ln_!r} received {got3} "
+                      f"(exception: {err3}) instead of {want3}: the tensor role was not read from the suffix of the hyper-parameter head", {"limit": str(nlim)})
+  except Exception as e:  # pylint: disable=broad-except
+    rep.violation("directed-names-raises", f"directed layer-name case raised {type(e).__name__}: {str(e)[:200]}", {})
   # ---- forgiving factor on the implementation
   ff = forgiving_factor["bits"]
   n_delta = 0
